@@ -40,6 +40,21 @@ CLAIMED = {
     "C13": (H, "exploration", "model-based stateful property testing with cloned worlds and diverging histories",
             "Clones are taken at arbitrary points; the full probe suite must give identical answers on the clone immediately, and afterwards each world is checked against its own model after every step, so bleed-through shows up in the untouched world; both can be refilled to capacity.",
             "handles belong to a world lineage (soundness decision 10)", "DESIGN.md 3/C13"),
+    "C03": (H, "exploration", "model-based property testing with state-aimed forged handles under AddressSanitizer",
+            "Forged values are constructed from the live state for the boundary classes (free slot with matching generation, indices around len/capacity/2^24-1, undeclared archetype ids, cross-archetype unchecked conversions, cross-world handles and direct handles, hidden direct-handle constructor) and passed to every lookup, destroy and mutable path; allowed outcomes are absence, an allow-listed clean panic, or exactly the bit-identical live entity; the state must be unchanged afterwards. Builds: debug assertions on, off, and off under ASan.",
+            "uniformly random 64-bit values are only one class; a defect confined to a value outside the constructed classes would be missed; Miri sample and libFuzzer target only in the thorough tier", "DESIGN.md 3/C03"),
+    "C10": (H, "fault_enumeration", "fault injection at every callback point of generated histories (panic under catch_unwind), model-based",
+            "Every point at which user code is called back in a generated history (k-th closure call of each query macro, k-th Clone during clone, k-th Drop during dynamic destroy / world drop) is tried once as a panic, documented overflow panics are reached via generation presets, and afterwards the full oracle suite (handles, values, drops - double drop strict, leaks tolerated -, iteration, len/capacity, representation invariant) must hold for the rest of the history. Fault enumeration is the right level: the fault space of a history is finite and enumerated.",
+            "per (op, site) at most 16 (quick) / 64 (thorough) points, evenly spread; capacity overflow at 2^24 only in the thorough tier", "DESIGN.md 3/C10"),
+    "C11": (H, "exploration", "exhaustive pair matrix + generated nestings against a RefCell model",
+            "The full outer x inner pair matrix named in the property is enumerated on 8 populations (must-panic and must-not-panic directions, observed values, release after unwinding), plus generated sequences of nestings of depth <= 3.",
+            "pair matrix exhaustive for the stated dimensions on the WMix shapes; deeper nestings sampled", "DESIGN.md 3/C11"),
+    "C14": (H, "exploration", "property testing of conversion / Eq / Hash laws over edge-biased generated raw values",
+            "from_raw/raw round trips, typed<->dynamic conversions for every archetype, Select* dispatch for declared and undeclared ids, reference conversions, Eq/Hash laws and HashSet/HashMap behaviour are checked over generated raw values, pairs differing in exactly one field and direct handles; histories check that created handles carry their creator's ARCHETYPE_ID.",
+            "a merely weak hash is not a violation; Eq=>Hash direction only", "DESIGN.md 3/C14"),
+    "C17": (H, "exploration", "model-based stateful property testing of the event logs (feature events)",
+            "The harness is built with feature events; after every step the per-archetype and world-level created/destroyed iterators are compared as multisets with the model's logs, size_hint is checked before every next(), and clears must empty the logs without touching entities.",
+            "multiset comparison (no ordering guarantee is documented)", "DESIGN.md 3/C17"),
 }
 
 
